@@ -93,6 +93,8 @@ type c13Env struct {
 	cur      *c13Cfg
 	closers  []func()
 	prog     *os.File // <VERIF_OUT>.cur: the call in flight
+	padFams  []string // format families present in the spec being driven (c13_pad_test.go)
+	padded   int      // strings padded by the configuration's pad class
 
 	mu       sync.Mutex
 	lastCall time.Time
